@@ -203,7 +203,7 @@ inductive Outcome (α : Type) where
   /-- the queue ran empty: Python returns `None` -/
   | exhausted
   | outOfFuel
-  deriving Repr
+  deriving DecidableEq, Repr
 
 /-- `utils.generic.search(states, success, expand, combine)` with `combine(new, old) = old + new` -/
 def search (success : List Nat → Bool) (expand : List Nat → List (List Nat)) :
